@@ -263,6 +263,12 @@ impl GitSyncServer {
             cryptor,
             version_retention: VERSION_RETENTION,
         };
+        // Publish commits which an earlier run made but could not push (it was interrupted, or
+        // the remote was unreachable), so that what this clone serves is what the remote has.
+        // If that is not possible right now, the next write deals with it.
+        if let Err(e) = server.push() {
+            log::warn!("could not push to remote: {e}");
+        }
         Ok(server)
     }
 
